@@ -422,7 +422,10 @@ class LossScenario(explore.Scenario):
               # registration of it cancelled
               'cbA2', 'cancelA2', 'pcbE2', 'pcancelE2',
               # call1 answered by an error reply that has no body
-              'error1']
+              'error1',
+              # a disconnect callback that itself issues a call (with a
+              # deadline) when it runs
+              'cbCall']
 
     def build(self):
         from txdbus import interface as I
@@ -517,6 +520,14 @@ class LossScenario(explore.Scenario):
                     R.METHOD_RETURN, 500,
                     {'reply_serial': w.call_serial['call0']}, 's', ['r']))
                 w.completed.add('call0')
+            elif e == 'cbCall':
+                sink = w.calls.setdefault('late', [])
+
+                def cb_call(c, reason, sink=sink):
+                    d = c.callRemote('/obj', 'Late', interface='org.ex.I',
+                                     destination='org.ex.Dest', timeout=7)
+                    self._watch(d, sink)
+                conn.notifyOnDisconnect(cb_call)
             elif e == 'error1':
                 conn.dataReceived(R.encode_message(
                     R.ERROR, 501,
@@ -763,8 +774,8 @@ def run(ctx):
         explore.explore(
             ctx, LossScenario,
             {'events': ['call0', 'call1', 'call2', 'reply0', 'cbA', 'cbB',
-                        'cancelA', 'cbA2', 'cancelA2', 'error1']},
-            max_depth=15, label='loss: calls and callbacks, to the fixpoint')
+                        'cancelA', 'cbA2', 'cancelA2', 'error1', 'cbCall']},
+            max_depth=16, label='loss: calls and callbacks, to the fixpoint')
     else:
         explore.explore(ctx, LossScenario, {'events': ALL}, max_depth=7,
                         label='loss: all events, depth 7',
@@ -778,8 +789,8 @@ def run(ctx):
         explore.explore(
             ctx, LossScenario,
             {'events': ['call0', 'call1', 'call2', 'reply0', 'cbA', 'cbB',
-                        'cancelA', 'cbA2', 'cancelA2', 'error1']},
-            max_depth=15, label='loss: calls and callbacks, to the fixpoint')
+                        'cancelA', 'cbA2', 'cancelA2', 'error1', 'cbCall']},
+            max_depth=16, label='loss: calls and callbacks, to the fixpoint')
     ctx.bounds = {'address_entries': 3}
 
 
